@@ -11,6 +11,7 @@
 From Coq Require Import ZArith.
 From AV Require Import Base.Prelude Base.NatSet.
 From AV Require Model.Seq Model.L1D Proofs.SeqProofs Proofs.BookkeepingProofs.
+From AV Require Model.AvgNum Model.Avg Proofs.AvgProofs Proofs.BookkeepingAvg.
 Import BookkeepingProofs.
 
 Section C09_seq.
@@ -66,6 +67,38 @@ Section C09_l1d.
   Proof. exact (@L1DBK.l1d_ask_commit num add sub mul div ltb eqb zero one inf is_nan is_inf round12 of_nat L P). Qed.
 End C09_l1d.
 
+(* ---------------------------------------------------------------------- *)
+(* AverageLearner (Model/Avg.v, tied to the real class bit-exactly by the
+   correspondences of C16 and of this check), every number structure, every
+   configuration, EVERY state (no invariant needed).  [hint] is the order in
+   which the code's fallback branch iterates its candidate set (recorded from
+   the implementation; irrelevant when the next seeds are free). *)
+Section C09_avg.
+  Variable N : AvgNum.NumOps.
+  Notation st := (Avg.st N).
+
+  (* ask n false returns the state itself: data, pending set, both losses,
+     every later step (hence every later answer) and the repeated call are
+     what they would have been without the call *)
+  Theorem C09_avg_noop : forall (c : Avg.cfg N) (s : st) n hint,
+    fst (Avg.ask c s n false hint) = s /\
+    (forall h, Avg.run c (fst (Avg.ask c s n false hint)) h = Avg.run c s h) /\
+    (forall o, Avg.step c (fst (Avg.ask c s n false hint)) o = Avg.step c s o) /\
+    (forall real, Avg.loss c (fst (Avg.ask c s n false hint)) real = Avg.loss c s real) /\
+    snd (Avg.ask c (fst (Avg.ask c s n false hint)) n false hint) = snd (Avg.ask c s n false hint).
+  Proof. exact (@BookkeepingAvg.avg_ask_noop N). Qed.
+
+  (* ask n true returns those very points and improvement (or raises alike) and
+     is ask n false followed by tell_pending of each returned seed, in order *)
+  Theorem C09_avg_commit : forall (c : Avg.cfg N) (s : st) n hint,
+    snd (Avg.ask c s n true hint) = snd (Avg.ask c s n false hint) /\
+    fst (Avg.ask c s n true hint) =
+      fold_left (@Avg.tell_pending N)
+                (BookkeepingAvg.asked_points (snd (Avg.ask c s n false hint)))
+                (fst (Avg.ask c s n false hint)).
+  Proof. exact (@BookkeepingAvg.avg_ask_commit N). Qed.
+End C09_avg.
+
 (* non-vacuity: a sequence learner with a pending point and one result;
    a non-committing ask returns indices and changes nothing, the committing
    one returns the same indices and marks them pending *)
@@ -76,7 +109,24 @@ Example C09_example :
   Seq.pend (fst (Seq.ask s 3 true)) = [0; 2; 3; 4].
 Proof. vm_compute. repeat split. Qed.
 
+(* non-vacuity (Avg over the integers): two results, seed 1 pending, seed 3
+   told out of order -- the next seeds 3,4 collide with data, so the fallback
+   branch answers; the non-committing ask changes nothing, the committing one
+   returns the same seeds and marks them pending *)
+Example C09_example_avg :
+  let N := BookkeepingAvg.ZOps in
+  let c := Avg.mkcfg N 1%Z 1%Z 2 true in
+  let s := Avg.reach c [Avg.Tell N 0 5%Z; Avg.TellPending 1; Avg.Tell N 3 9%Z] in
+  Avg.pend s = [1] /\
+  BookkeepingAvg.asked_points (snd (Avg.ask c s 2 false [4; 2])) = [4; 2] /\
+  fst (Avg.ask c s 2 false [4; 2]) = s /\
+  BookkeepingAvg.asked_points (snd (Avg.ask c s 2 true [4; 2])) = [4; 2] /\
+  Avg.pend (fst (Avg.ask c s 2 true [4; 2])) = [1; 2; 4].
+Proof. vm_compute. repeat split. Qed.
+
 Print Assumptions C09_seq_noop.
 Print Assumptions C09_seq_commit.
 Print Assumptions C09_l1d_noop.
 Print Assumptions C09_l1d_commit.
+Print Assumptions C09_avg_noop.
+Print Assumptions C09_avg_commit.
